@@ -18,7 +18,7 @@ META = {
         "quick": "textbook example (Seth/Agrawal), F-shape, F-unit K<=5, c17, 30 random DAGs (<=12 gates); super-circuit form for every single-output restriction of each member",
         "thorough": "same + 300 random DAGs + 40 with 24 gates, 8 hash seeds",
     },
-    "outside": ["circuits with blackboxes or constant x", "circuits outside the families"],
+    "outside": ["circuits with blackboxes", "circuits outside the families"],
     "assumptions": ["sem.py gate table", "harness-side substitution of supergates into the super-circuit (C06.ref_fill)", "z3 sound"],
 }
 
@@ -31,7 +31,8 @@ def textbook():
 
 
 def all_cases(ctx):
-    cs = [textbook()] + F.f_shape() + F.f_unit(5) + F.f_rand(ctx.seed, 30 if ctx.quick else 300)
+    from cgv.props.C03 import x_cases
+    cs = [textbook()] + F.f_shape() + F.f_unit(5) + x_cases() + F.f_rand(ctx.seed, 30 if ctx.quick else 300)
     if not ctx.quick:
         import random
         cs += [(("rand24", ctx.seed, i), F.rand_dag(random.Random(f"c17-24-{ctx.seed}-{i}"), n_in=5, n_gates=24, max_arity=3, name=f"r24_{i}")) for i in range(40)]
@@ -48,7 +49,7 @@ def run(ctx):
         if isinstance(spec, str):
             spec = Net.of(cg.from_lib(spec.split(":")[1])).spec()
         A = Net.from_spec(spec)
-        if wellformed(A) or not A.is_acyclic() or A.bbs or A.has_x() or not A.outputs():
+        if wellformed(A) or not A.is_acyclic() or A.bbs or not A.outputs():
             ctx.rejected("family member outside the domain")
             continue
         ctx.sample({"case": cid, "circuit": spec})
@@ -104,7 +105,7 @@ def check_list(ctx, tx, A, spec, det):
                     bad.append((v, n.types[v], n.preds[v]))
     ctx.side("supergates-wiring", not bad, "supergates:wiring", f"supergate wiring differs from the circuit at {bad[:3]}", det)
     # topological order + availability, and solver obligation: recomposition == original outputs
-    S = Sem()
+    S = Sem(kleene=A.has_x())
     env = {i: S.var("v!" + i) for i in A.inputs()}
     fa = S.fn(A, env)
     val = dict(env)
@@ -138,8 +139,8 @@ def check_list(ctx, tx, A, spec, det):
                 bad = [(o, v[o], ref[o]) for o in outs if v[o] != ref[o]]
                 return {"reproduced": bool(bad), "sig": "supergates:recomposition-differs", "what": f"recomposed supergates differ from the circuit at outputs {bad[:2]}", "detail": dict(det, inputs=free)}
 
-            ok = ctx.prove("supergates-recompose", [z3.Or([z3.Xor(val[o], fa[o]) for o in outs])], replay)
-            if ok:
+            ok = ctx.prove("supergates-recompose", [z3.Or([S.neq(val[o], fa[o]) for o in outs])], replay)
+            if ok and not A.has_x():
                 ctx.twin("twin-supergates", [z3.Or([z3.Xor(val[o], z3.Not(fa[o])) for o in outs])])
     # disjoint (proper) transitive fan-in of the inputs of every supergate, in the fan-in-limited circuit
     bad, strict = [], 0
